@@ -450,6 +450,36 @@ func main() {
 		}
 	}
 
+	// strings whose length prefix lies about the buffer: every prefix value around the arithmetic boundaries of
+	// the bounds check (int / uint32 wrap-around), on short and on longer buffers -- an error, never a panic
+	for _, claimed := range []uint32{1, 2, 7, 0x7FFFFFFB, 0x7FFFFFFC, 0x7FFFFFFF, 0x80000000, 0x80000001, 0xFFFFFFF0,
+		0xFFFFFFFB, 0xFFFFFFFC, 0xFFFFFFFD, 0xFFFFFFFE, 0xFFFFFFFF} {
+		for _, have := range []int{0, 1, 3, 4, 5, 64} {
+			if uint64(have) >= uint64(claimed) {
+				continue
+			}
+			count("string/lying-prefix", fmt.Sprintf("%#x/%d", claimed, have))
+			buf := make([]byte, 4+have)
+			iohelp.WriteUint32Bytes(buf, claimed)
+			for i := 4; i < len(buf); i++ {
+				buf[i] = 'a'
+			}
+			for name, fn := range map[string]func([]byte) (string, error){"ReadStringBytes": iohelp.ReadStringBytes, "ReadStringBytesSharedMemory": iohelp.ReadStringBytesSharedMemory} {
+				var err error
+				pn := safely(func() { _, err = fn(buf) })
+				if pn != "" {
+					fail("panic", fmt.Sprintf("%s(prefix %#x, %d bytes follow)", name, claimed, have), "error, not panic", pn, "", "length prefix larger than the buffer")
+				} else if err == nil {
+					fail("oracle", fmt.Sprintf("%s(prefix %#x, %d bytes follow)", name, claimed, have), "error", "nil", "", "accepts a string longer than the buffer")
+				}
+			}
+			m := ask(fmt.Sprintf("dec 1 %d %s", si, hexOf(buf)))
+			if strings.HasPrefix(m, "ok ") || strings.HasPrefix(m, "panic") {
+				fail("mismatch", fmt.Sprintf("dec str prefix %#x, %d bytes follow", claimed, have), "err", m, m, "model string read differs")
+			}
+		}
+	}
+
 	// strings: every buffer length around 4+n; shared-memory variant agrees
 	for _, n := range []int{0, 1, 2, 5, 255, 256, 1000} {
 		body := make([]byte, n)
